@@ -132,7 +132,7 @@ package message
 //@   ensures result == ite(isComplete, status, graphsync.PartialResponse)
 //@ func Builder.Build
 //@   requires b != nil
-//@   modifies alloc, allmaps("map[graphsync.RequestID]GraphSyncResponse")
+//@   modifies alloc
 //@   ensures result1 == nil && result0.blocks == b.outgoingBlocks && result0.requests == b.requests
 //@   ensures forall id graphsync.RequestID :: (id in result0.responses) == (id in b.outgoingResponses)
 //@   ensures forall id graphsync.RequestID :: id in b.outgoingResponses ==> result0.responses[id].requestID == id
